@@ -111,11 +111,12 @@ def _refined(ex, st, v):
     from pyvc.verify import heap_closure
     t = v.t
     cache = st.ghost.setdefault('c17d-refine', {})
-    key = (t.get_id(), len(st.pc))
+    key = (t.get_id(), len(st.pc), len(st.bound), len(st.guards))
     if key in cache:
         return cache[key]
     out = v
-    base = list(st.pc) + heap_closure(st) + _VV.ATOMS.axioms()
+    # under a binder the bound variable is a free constant of the check, constrained by its range (and the active guards)
+    base = list(st.pc) + heap_closure(st) + _VV.ATOMS.axioms() + [g for _, g in st.bound] + list(st.guards)
     for cname in _REFINE_TO:
         ci = ex.repo.find_class(cname)
         if ci is None:
@@ -123,7 +124,7 @@ def _refined(ex, st, v):
         ids = [ex.class_id(c.name) for c in ex.repo.subclasses(ci.name)]
         want = _z3.And(_Val.is_ref(t), _z3.Or(*[ex.cls_of(_Val.rv(t)) == i for i in ids]))
         s = _z3.Solver()
-        s.set('timeout', 1500)
+        s.set('timeout', 3000)
         s.add(*base)
         s.add(_z3.Not(want))
         if str(s.check()) == 'unsat':
@@ -147,3 +148,35 @@ def _binop(self, st, op, l, r, node):
 
 
 _symexec.Executor.binop = _binop
+
+
+# ---- enumerate(x) / len(x) of an Optional list -----------------------------------------------------------------------
+# ENGINE  `enumerate(betas)` where `betas: list | None`: the core's view has untyped elements.  Python raises TypeError for
+#         enumerate(None): the use becomes the obligation safe:none (not None on this path) and the inner list is iterated.
+_orig_b_enumerate = _lib.BUILTINS['enumerate']
+
+
+def _b_enumerate(ex, st, args, kw, node):
+    if ex.ctx.prop == PROP and args and not st.spec:
+        if args[0].kind == 'opt':
+            args = [ex.unopt(st, args[0], node, 'enumerate')] + list(args[1:])
+        if not st.bound and ex.frame.depth == 0:
+            # paths that ran different loops are kept apart at joins (`if betas is None: <loop creating the default
+            # parameters>`: joining would merge a typed parameter list with a local list and lose the element type);
+            # State.ghost keys differ -> no merge: more paths, never fewer facts
+            st.ghost[('c17d-enumerate', getattr(node, 'lineno', 0))] = True
+    return _orig_b_enumerate(ex, st, args, kw, node)
+
+
+_lib.BUILTINS['enumerate'] = _b_enumerate
+
+
+# ---- the path that creates the Variable node itself is kept apart from the path that received it ------------------------
+# ENGINE  `if isinstance(variable, Variable): the_variable = variable / elif isinstance(variable, str): the_variable =
+#         Variable(f'{variable}')`: a join makes every heap field an ite over the two paths.  A path that built a Variable node
+#         (outside a binder) carries a ghost mark: no merge with the other path (more paths, never fewer facts).
+@_lib.hook('construct_special')
+def _mark_built_variable(ex, st, ci, args, kwargs, node):
+    if ex.ctx.prop == PROP and ci.name == 'Variable' and not st.spec and not st.bound:
+        st.ghost[('c17d-built', 'Variable')] = True
+    return None
